@@ -32,6 +32,16 @@ def norm(x):
     return json.loads(json.dumps(x, default=str))
 
 
+def _b64(obj):
+    import hashlib
+    try:
+        return hashlib.sha1(obj.to_b64().encode()).hexdigest()
+    except BaseException as e:  # noqa
+        if isinstance(e, (KeyboardInterrupt, SystemExit)):
+            raise
+        return "raised " + type(e).__name__
+
+
 class Entry:
     def __init__(self, prov, obj, kind, origin):
         self.prov = prov
@@ -39,6 +49,7 @@ class Entry:
         self.kind = kind            # "model" | "cfg" | "var"
         self.origin = origin        # index of the object it is a twin of / derived from, or None
         self.snap0 = norm(hist.canon(obj))
+        self.b64_0 = _b64(obj)      # what the serialising query returns for the untouched object
         self.leaves = oracle.leaves(obj) if not oracle.is_leaf(obj) else {obj.id: oracle.bounds_tuple(obj.bounds)}
         self.comp_ids = sorted(oracle.compounds(obj)) if not oracle.is_leaf(obj) else []
         self.n_queries = 0
@@ -89,6 +100,10 @@ class Session:
                     self._count("excluded_known")
                     continue
                 raise Violation(f"object #{idx} ({e.kind}) changed state after step {after}: differs at {paths[:4]}")
+            if not self.tolerant and _b64(e.obj) != e.b64_0:
+                # (strict histories only: the open finding changes number types inside bounds, which the packed form shows)
+                raise Violation(f"object #{idx} ({e.kind}): to_b64() returns another string after step {after} than for the untouched object "
+                                f"although no public attribute changed (hidden state is packed along)")
 
     # -- steps ---------------------------------------------------------------------------------
     def step(self, s):
